@@ -61,18 +61,20 @@ func expect(root *Node) (e Expectation, undet bool) {
 	seen := map[string]bool{}
 	weak := false
 	var cnts, reqs []map[int]int
-	nres := uint(1)
-	for res := uint(0); res < nres; res++ {
+	maxMis := 0
+	for res := uint(0); res < 1<<uint(maxMis); res++ {
 		r := &ref{res: res}
 		_, ok := root.eval(r)
 		if r.undet {
 			return e, true
 		}
-		if res == 0 && r.nmis > 0 {
-			if r.nmis > 4 {
+		if r.nmis > maxMis {
+			// (the number of mis-counted calls met can grow when an earlier one
+			// is resolved as "goes ahead"; the new high bits were 0 so far)
+			maxMis = r.nmis
+			if maxMis > 4 {
 				return e, true
 			}
-			nres = 1 << uint(r.nmis)
 		}
 		if bag {
 			if !ok || r.aborted {
@@ -412,8 +414,16 @@ func run(c *common.Ctx) *common.Result {
 		pool <- newWorker()
 	}
 	st := &stats{panicMsgs: map[string]string{}, panicN: map[string]int64{}}
-	var reported sync.Map
 	var capped int32
+	// the same program text can be produced by two templates: violations and
+	// samples are collected and reported once, deterministically, at the end
+	var vmu sync.Mutex
+	viol := map[string]common.Violation{}
+	type sample struct {
+		job int
+		v   interface{}
+	}
+	var samples []sample
 
 	common.ParallelFor(c, len(jobs), func(ji int) {
 		if c.Expired() {
@@ -471,18 +481,23 @@ func run(c *common.Ctx) *common.Result {
 			}
 			ok, kind := check(exp, out.Log, out.Kind == "panic")
 			if !ok {
-				if _, dup := reported.LoadOrStore(src, true); !dup {
-					res.Violate(common.Violation{
-						Class:  class + "/" + kind,
-						Case:   src,
-						Detail: fmt.Sprintf("probe log %v, reference expects %s (run ended: %s %s)", out.Log, exp, out.Kind, out.Msg),
-						Replay: Case{Src: src, Class: class, Exp: exp},
-					})
+				v := common.Violation{
+					Class:  class + "/" + kind,
+					Case:   src,
+					Detail: fmt.Sprintf("probe log %v, reference expects %s (run ended: %s %s)", out.Log, exp, out.Kind, out.Msg),
+					Replay: Case{Src: src, Class: class, Exp: exp},
 				}
+				vmu.Lock()
+				if old, dup := viol[src]; !dup || v.Class < old.Class {
+					viol[src] = v
+				}
+				vmu.Unlock()
 			}
 			if !sampled && len(out.Log) > 1 && job.Sample {
 				sampled = true
-				res.Sample(map[string]interface{}{"class": class, "program": src, "expected": exp.String(), "log": out.Log, "outcome": out.Kind})
+				vmu.Lock()
+				samples = append(samples, sample{ji, map[string]interface{}{"class": class, "program": src, "expected": exp.String(), "log": out.Log, "outcome": out.Kind}})
+				vmu.Unlock()
 			}
 		})
 		res.Add("evaluations", nEval)
@@ -502,6 +517,30 @@ func run(c *common.Ctx) *common.Result {
 	})
 	if atomic.LoadInt32(&capped) == 1 {
 		res.Cap("soft deadline reached before all template jobs ran")
+	}
+	var vs []common.Violation
+	for _, v := range viol {
+		vs = append(vs, v)
+	}
+	sort.Slice(vs, func(i, j int) bool {
+		if vs[i].Class != vs[j].Class {
+			return vs[i].Class < vs[j].Class
+		}
+		if len(vs[i].Case) != len(vs[j].Case) {
+			return len(vs[i].Case) < len(vs[j].Case)
+		}
+		return vs[i].Case < vs[j].Case
+	})
+	for _, v := range vs {
+		res.Violate(v)
+	}
+	sort.Slice(samples, func(i, j int) bool { return samples[i].job < samples[j].job })
+	step := 1
+	if len(samples) > 12 {
+		step = len(samples) / 12
+	}
+	for i := 0; i < len(samples); i += step {
+		res.Sample(samples[i].v)
 	}
 	// let goroutines started by `go` statements finish so their panics are counted
 	for i := 0; i < 2000 && atomic.LoadInt64(&vhook.Live) > 0; i++ {
